@@ -1732,7 +1732,20 @@ func (vars algorithmExpansion) Call() (ExpandedValue, error) {
 						return err
 					}
 
-					for key, expandedNestValueItem := range expandedNestValue.(*ExpandedObject).Members {
+					expandedNestObject, ok := expandedNestValue.(*ExpandedObject)
+					if !ok {
+						if expandedNestValue == nil {
+							// nothing of the nested value survived expansion
+							continue
+						}
+
+						return jsonldtype.Error{
+							Code: jsonldtype.InvalidAtNestValue,
+							Err:  fmt.Errorf("invalid expanded type: %T", expandedNestValue),
+						}
+					}
+
+					for key, expandedNestValueItem := range expandedNestObject.Members {
 						macroAddValue{
 							Value:  expandedNestValueItem,
 							Key:    key,
